@@ -113,6 +113,9 @@ func (f Descent) locate(pp Expr, data any, rest Expr, max int) (locs []Expr) {
 			rt = rt.Elem()
 			rd = rd.Elem()
 		}
+		if !rd.IsValid() { // a nil pointer
+			break
+		}
 		cp := append(pp, nil) // place holder
 		switch rt.Kind() {
 		case reflect.Struct:
